@@ -67,7 +67,8 @@ REQUIRED = {"psin_nonneg": 20000, "psin_clamp_decisive": 20, "psin_def": 20000, 
             "basis": 20000, "b_normal": 20000, "field_analytic": 5000, "field_orientation": 1000,
             "vec2d_inside": 4000, "vec2d_outside": 4000, "vec3d": 8000, "map3d_special": 3000, "vec3d_special": 9000,
             "pts3d_y0": 400, "pts3d_x0": 400, "pts3d_diag": 400, "pts3d_y_subnormal": 400, "pts3d_x_subnormal": 400,
-            "pts3d_tiny": 800, "pts_private_flux": 100,
+            "pts3d_tiny": 800, "pts_private_flux": 100, "pts_listing_seam": 1500, "seq_first": 2000, "seq_remap": 4000,
+            "seq_other": 2000,
             "pts_polygon_inside_psin_gt_1": 30}
 
 SAFETY = 8.0          # factor on the computed discretisation bounds (their constants are worst-case estimates)
@@ -100,13 +101,70 @@ def _bundled(kind):
     return G
 
 
+def _contour(sol, t):
+    zeta = sol.a * np.cos(t)
+    return np.sqrt(sol.R0 ** 2 + 2 * sol.R0 * zeta), sol.kappa * sol.a * np.sin(t) / np.sqrt(1 + 2 * sol.tau * zeta / sol.R0)
+
+
+def _polygon(sol, e):
+    """Open vertex listing of the LCFS polygon (never repeats the first vertex).  Modes: 'param' (equal parameter steps
+    from a random start), 'mirror' (upper half mirrored onto the lower half: first and last vertex share r exactly),
+    'shared_z' (first and last vertex are the two contour points of one exact height), 'rect' and 'plus' (rectilinear:
+    every listing starts and ends on a common grid line).  Then rolled, scaled about the axis, optionally reversed."""
+    mode = e.get("poly_mode", "param")
+    n = e["poly_n"]
+    f = e.get("poly_f", [0.7, 0.7, 0.7, 0.7])
+    if mode == "param":
+        vx, vy = sol.lcfs(n, 1.0, e["poly_t0"])
+        dz = vy - sol.Z0
+    elif mode == "mirror":
+        m = max(2, n // 2)
+        R, dzu = _contour(sol, (np.arange(m) + 0.5) * np.pi / m)
+        vx = np.concatenate([R, R[::-1]])
+        dz = np.concatenate([dzu, -dzu[::-1]])
+    elif mode == "shared_z":
+        t1 = np.pi / 2 - f[0] * np.pi / n
+        R1, dz1 = _contour(sol, np.array([t1]))
+        dz1 = float(dz1[0])
+        # the other contour point of height dz1: zeta^2 + (2 tau dz1^2 / (R0 kappa^2)) zeta + dz1^2 / kappa^2 - a^2 = 0
+        bq = 2 * sol.tau * dz1 ** 2 / (sol.R0 * sol.kappa ** 2)
+        cq = dz1 ** 2 / sol.kappa ** 2 - sol.a ** 2
+        zm = 0.5 * (-bq - math.sqrt(bq * bq - 4 * cq))
+        t2 = math.acos(max(-1.0, min(1.0, zm / sol.a)))
+        R, dz = _contour(sol, np.linspace(t1, t2 - 2 * np.pi, n))       # clockwise, the long way round
+        vx = R.copy()
+        vx[-1] = math.sqrt(sol.R0 ** 2 + 2 * sol.R0 * zm)
+        dz = dz.copy()
+        dz[-1] = dz[0]
+    else:
+        rl = math.sqrt(sol.R0 ** 2 - 2 * sol.R0 * sol.a * (0.45 + 0.45 * f[0]))
+        rh = math.sqrt(sol.R0 ** 2 + 2 * sol.R0 * sol.a * (0.45 + 0.45 * f[1]))
+        zl = -sol.kappa * sol.a * (0.45 + 0.45 * f[2])
+        zh = sol.kappa * sol.a * (0.45 + 0.45 * f[3])
+        if mode == "rect":
+            vx = np.array([rl, rh, rh, rl])
+            dz = np.array([zl, zl, zh, zh])
+        else:                 # plus
+            x0, x3, y0, y3 = rl, rh, zl, zh
+            x1, x2 = sol.R0 - 0.35 * (sol.R0 - rl), sol.R0 + 0.35 * (rh - sol.R0)
+            y1, y2 = 0.35 * zl, 0.35 * zh
+            vx = np.array([x1, x2, x2, x3, x3, x2, x2, x1, x1, x0, x0, x1])
+            dz = np.array([y0, y0, y1, y1, y2, y2, y3, y3, y2, y2, y1, y1])
+    roll = int(e.get("poly_roll", 0)) % len(vx)
+    vx, dz = np.roll(vx, -roll), np.roll(dz, -roll)
+    sc = e["poly_scale"]
+    vx = sol.R0 + sc * (vx - sol.R0)
+    vy = sol.Z0 + sc * dz
+    if e["poly_reverse"]:
+        vx, vy = vx[::-1].copy(), vy[::-1].copy()
+    return vx, vy
+
+
 def _sol_geom(e):
     sol = Solovev(e["R0"], e["a"], e["kappa"], e["tau"], e["Z0"], e["psi_axis"], e["psi_lcfs"])
     r = np.linspace(e["rmin"], e["rmax"], e["nr"])
     z = np.linspace(e["zmin"], e["zmax"], e["nz"])
-    vx, vy = sol.lcfs(e["poly_n"], e["poly_scale"], e["poly_t0"])
-    if e["poly_reverse"]:
-        vx, vy = vx[::-1].copy(), vy[::-1].copy()
+    vx, vy = _polygon(sol, e)
     RR, ZZ = np.meshgrid(r, z, indexing="ij")
     return dict(kind="solovev", r=r, z=z, psi=sol.psi(RR, ZZ), axis=(sol.R0, sol.Z0), vx=vx, vy=vy,
                 psi_axis=e["psi_axis_eq"], psi_lcfs=e["psi_lcfs"], special=[], sol=sol)
@@ -136,11 +194,15 @@ def _gen_solovev(rng):
     u = rng.random()
     scale = 1.0 if u < 0.4 else (float(rng.uniform(0.9, 0.99)) if u < 0.6 else float(rng.uniform(1.01, 1.06)))
     fe = float(rng.choice([-1.0, 1.0]) * rng.uniform(1, 6))
-    return dict(kind="solovev", R0=R0, a=a, kappa=kappa, tau=tau, Z0=Z0, psi_axis=psi_axis, psi_lcfs=psi_axis + delta,
+    mode = ["param", "param", "mirror", "shared_z", "rect", "plus"][int(rng.integers(6))]
+    poly_n = int(rng.choice([8, 12, 24, 60, 120]))
+    roll = 0 if (mode in ("mirror", "shared_z") and rng.random() < 0.75) else int(rng.integers(0, 120))
+    poly_f = [float(v) for v in rng.uniform(0.2, 1.0, 4)]
+    return dict(kind="solovev", poly_mode=mode, poly_roll=roll, poly_f=poly_f, R0=R0, a=a, kappa=kappa, tau=tau, Z0=Z0, psi_axis=psi_axis, psi_lcfs=psi_axis + delta,
                 psi_axis_eq=psi_axis + eps * delta, nr=int(rng.integers(20, 66)), nz=int(rng.integers(20, 66)),
                 rmin=float(max(0.08 * R0, r_in - m[0] * a)), rmax=float(r_out + m[1] * a),
                 zmin=float(Z0 - zh * (1 + m[2])), zmax=float(Z0 + zh * (1 + m[3])),
-                poly_n=int(rng.choice([8, 12, 24, 60, 120])), poly_scale=scale, poly_t0=float(rng.uniform(0, 2 * np.pi)),
+                poly_n=poly_n, poly_scale=scale, poly_t0=float(rng.uniform(0, 2 * np.pi)),
                 poly_reverse=bool(rng.random() < 0.5), f_edge=fe, f_alpha=float(rng.uniform(-0.3, 0.3)),
                 f_knots=int(rng.integers(2, 20)), r_vac=float(rng.uniform(0.8, 1.2) * R0),
                 limiter=bool(rng.random() < 0.5))
@@ -203,6 +265,11 @@ def _gen_points(rng, G, n):
     L = np.hypot(ex, ey) + 1e-300
     d = rng.choice([-1.0, 1.0], 2 * k) * 10 ** rng.uniform(np.log10(3e-6), np.log10(3e-2), 2 * k)
     add(x0 + t * ex - ey / L * d, y0 + t * ey + ex / L * d, "polygon_edge")
+    # inside the two triangles at the seam of the vertex listing: (v[-2], v[-1], v[0]) and (v[-1], v[0], v[1])
+    kc = max(2, k // 2)
+    for tri in ((-2, -1, 0), (-1, 0, 1)):
+        w = rng.dirichlet([1.0, 1.0, 1.0], kc)
+        add(w @ vx[list(tri)], w @ vy[list(tri)], "listing_seam")
     # near psi_n = 1 (analytic contour) for Solov'ev; x-point / strike-point / private-flux region for bundled grids
     if G["sol"] is not None:
         sol = G["sol"]
@@ -286,6 +353,30 @@ def _gen_special3d(rng, pts):
     return out
 
 
+def _gen_seq(rng):
+    """Call sequence on ONE equilibrium object: a profile container is mapped (all four entry points), a second container
+    is mapped, the first is changed IN PLACE and mapped again; the new mappings are evaluated interleaved."""
+    amp = float(10 ** rng.uniform(-1, 3))
+    nk = int(rng.integers(2, 9))
+    inc = rng.uniform(0.3, 1.0, nk - 1)
+    x = np.concatenate([[0.0], np.cumsum(inc) / inc.sum()])
+    x[-1] = 1.0
+    y1 = amp * rng.normal(size=nk)
+    how = ["refill", "scale", "element"][int(rng.integers(3))]
+    if how == "refill":
+        y2 = amp * rng.normal(size=nk)
+    elif how == "scale":
+        y2 = y1 * float(rng.uniform(1.5, 3.0))
+    else:
+        y2 = y1.copy()
+        y2[int(rng.integers(nk))] += amp * float(rng.choice([-1.0, 1.0]) * rng.uniform(0.5, 2.0))
+    return dict(container=["ndarray", "ndarray", "list", "callable"][int(rng.integers(4))], how=how,
+                slot=["tor", "pol", "nor"][int(rng.integers(3))], x=[float(v) for v in x], y1=[float(v) for v in y1],
+                y2=[float(v) for v in y2], yB=[float(v) for v in amp * rng.normal(size=nk)],
+                c1=[float(v) for v in amp * rng.normal(size=3)], c2=[float(v) for v in amp * rng.normal(size=3)],
+                cB=[float(v) for v in amp * rng.normal(size=3)], others=[float(v) for v in amp * rng.normal(size=2)])
+
+
 def gen_case(rng, tier):
     u = rng.random()
     if u < 0.2:
@@ -303,7 +394,7 @@ def gen_case(rng, tier):
                outside=None if rng.random() < 0.4 else [float(v) for v in vamp * rng.normal(size=3)])
     prof = _gen_profile(rng)
     pts = _gen_points(rng, G, NPTS)
-    return dict(eq=eq, profile=prof, outside=outside, vel=vel, points=pts, special3d=_gen_special3d(rng, pts))
+    return dict(eq=eq, profile=prof, outside=outside, vel=vel, points=pts, special3d=_gen_special3d(rng, pts), seq=_gen_seq(rng))
 
 
 def fixed_cases(tier):
@@ -331,7 +422,7 @@ def fixed_cases(tier):
                    outside=None if k % 2 else [10.0, -20.0, 30.0])
         pts = _gen_points(rng, G, NPTS)
         out.append(core.jsonable(dict(eq=eq, profile=prof, outside=[None, 0.0, -7.5, 250.0][k % 4], vel=vel,
-                                      points=pts, special3d=_gen_special3d(rng, pts))))
+                                      points=pts, special3d=_gen_special3d(rng, pts), seq=_gen_seq(rng))))
     return out
 
 
@@ -425,6 +516,97 @@ class _TargetError(Exception):
     pass
 
 
+class _MutableProfile:
+    """Python callable with mutable state: c0 + c1 x + c2 x^2 with the coefficient list changed in place."""
+
+    def __init__(self, c):
+        self.c = list(c)
+
+    def __call__(self, x):
+        return self.c[0] + self.c[1] * x + self.c[2] * x * x
+
+
+def _seq_container(q, which):
+    kind = q["container"]
+    if kind == "callable":
+        return _MutableProfile(q["c1"] if which == "A" else q["cB"])
+    data = [list(q["x"]), list(q["y1"] if which == "A" else q["yB"])]
+    return np.array(data) if kind == "ndarray" else data
+
+
+def _seq_modify(q, A):
+    kind = q["container"]
+    if kind == "callable":
+        A.c[:] = q["c2"]
+    elif kind == "ndarray":
+        A[1, :] = q["y2"]
+    else:
+        A[1][:] = q["y2"]
+
+
+def _seq_oracle(q, content):
+    if q["container"] == "callable":
+        c = {"1": q["c1"], "2": q["c2"], "B": q["cB"]}[content]
+        return lambda x: c[0] + c[1] * x + c[2] * x * x
+    from raysect.core.math.function.float import Interpolator1DArray
+    f = Interpolator1DArray(np.array(q["x"]), np.array({"1": q["y1"], "2": q["y2"], "B": q["yB"]}[content]), "cubic", "none", 0)
+    return lambda x: f(float(x))
+
+
+def _seq_stage(ctx, eq, q, out_val, samples, eqcls):
+    """samples: list of (r, z, psin, x, y, phi, basis2d (T, P, N), basis3d (T, P, N) at the 3-D radius, psin3d)."""
+    from raysect.core import Vector3D
+    ctx.cls("seq:" + q["container"])
+    slot = {"tor": 0, "pol": 1, "nor": 2}[q["slot"]]
+    o1, o2 = q["others"]
+    scale = 1e-300 + max(np.max(np.abs(q[k_])) for k_ in ("y1", "y2", "yB", "c1", "c2", "cB")) * 3.0 + abs(out_val)
+
+    def vec_args(container):
+        args = [lambda x: o1, lambda x: o2, lambda x: 0.5 * (o1 - o2)]
+        args[slot] = container
+        return args
+
+    def make(container, tag):
+        return dict(m2=_call(ctx, "map2d", eq.map2d, container, out_val), m3=_call(ctx, "map3d", eq.map3d, container, out_val),
+                    v2=_call(ctx, "map_vector2d", eq.map_vector2d, *vec_args(container)),
+                    v3=_call(ctx, "map_vector3d", eq.map_vector3d, *vec_args(container)), tag=tag)
+
+    def judge(mp, oracle, stage, mon):
+        for (r, z, psn, x, y, phi, b2, b3, psn3) in samples:
+            want, want3 = oracle(psn), oracle(psn3)
+            got = {"map2d": _call(ctx, "map2d()", mp["m2"], r, z), "map3d": _call(ctx, "map3d()", mp["m3"], x, y, z)}
+            v = _call(ctx, "map_vector2d()", mp["v2"], r, z)
+            got["map_vector2d"] = v.x * b2[slot][0] + v.y * b2[slot][1] + v.z * b2[slot][2]
+            v = _call(ctx, "map_vector3d()", mp["v3"], x, y, z)
+            c, s_ = math.cos(phi), math.sin(phi)
+            cyl = (v.x * c + v.y * s_, -v.x * s_ + v.y * c, v.z)
+            got["map_vector3d"] = cyl[0] * b3[slot][0] + cyl[1] * b3[slot][1] + cyl[2] * b3[slot][2]
+            for name in ("map2d", "map3d", "map_vector2d", "map_vector3d"):
+                w = want3 if name.endswith("3d") else want
+                ctx.close(got[name], w, "sequence:%s:%s:%s" % (name, q["container"], stage),
+                          {"first-mapping-not-profile-of-psin": "first mapping of a profile container differs from its content evaluated at psi_n",
+                           "new-mapping-after-in-place-change-not-current-content":
+                               "a mapping created after the profile container was changed in place does not follow the container's current content",
+                           "second-container-mapping-disturbed": "mapping of a second, different profile container (alive at the same time, evaluated "
+                                                                 "interleaved) differs from that container's content"}[stage],
+                          rtol=1e-11, atol=1e-11 * scale, monitor=mon, how=q["how"], slot=q["slot"], eq=eqcls)
+
+    A = _seq_container(q, "A")
+    B = _seq_container(q, "B")
+    first = make(A, "first")
+    judge(first, _seq_oracle(q, "1"), "first-mapping-not-profile-of-psin", "seq_first")
+    mapB = make(B, "B")
+    _seq_modify(q, A)
+    new = make(A, "new")
+    # interleaved evaluation of the new mapping, the other container's mapping, and (unjudged) the old mapping
+    for (r, z, psn, x, y, phi, b2, b3, psn3) in samples[:2]:
+        _call(ctx, "map2d()", first["m2"], r, z)
+        _call(ctx, "map_vector3d()", first["v3"], x, y, z)
+    judge(new, _seq_oracle(q, "2"), "new-mapping-after-in-place-change-not-current-content", "seq_remap")
+    judge(mapB, _seq_oracle(q, "B"), "second-container-mapping-disturbed", "seq_other")
+    judge(new, _seq_oracle(q, "2"), "new-mapping-after-in-place-change-not-current-content", "seq_remap")
+
+
 def _call(ctx, name, fn, *args):
     """Call into the code under test; any exception for an in-domain argument is a violation keyed by accessor."""
     try:
@@ -458,6 +640,8 @@ def _run(case, ctx):
     ctx.cls("eq:" + eqcls)
     if sol is not None:
         ctx.cls("polygon:" + ("exact" if e["poly_scale"] == 1.0 else ("shrunk" if e["poly_scale"] < 1 else "grown")))
+        ctx.cls("polygon_listing:%s%s" % (e.get("poly_mode", "param"), ":first-last-share-coordinate"
+                                          if (G["vx"][0] == G["vx"][-1] or G["vy"][0] == G["vy"][-1]) else ""))
         ctx.cls("axis_value:" + ("offset" if e["psi_axis_eq"] != e["psi_axis"] else "exact"))
     prof = case["profile"]
     ctx.cls("profile:" + prof["kind"])
@@ -606,6 +790,8 @@ def _run(case, ctx):
     inside = pin & (psin <= 1.0)
     ctx.mon("pts_private_flux", int((dec & ~pin & (psin <= 1.0)).sum()))
     ctx.mon("pts_polygon_inside_psin_gt_1", int((dec & pin & (psin > 1.0)).sum()))
+    seam = np.array([w[5] is not None and pts[w[5]][4] == "listing_seam" for w in rows])
+    ctx.mon("pts_listing_seam", int((dec & seam).sum()))
     ctx.mon("pts_inside", int((dec & inside).sum()))
     ctx.mon("pts_outside", int((dec & ~inside).sum()))
     ctx.mon("lcfs_mask", int(dec.sum()))
@@ -757,3 +943,20 @@ def _run(case, ctx):
                   first_bad_xyz=[rows[kb][3], rows[kb][4], rows[kb][1]], phi=float(PHI[kb]))
     if si.any() and so.any() and nz.any():
         ctx.nontrivial()
+
+    # ---- call sequences on this equilibrium object --------------------------------------------------
+    q = case.get("seq")
+    if q is not None:
+        samples = []
+        for ip in range(len(pts)):
+            k = 3 * ip
+            if not (sel_in[k] and nz[k] and sel_in[k + 1] and nz[k + 1] and dec3[k + 1]):
+                continue
+            samples.append((R[k], Z[k], psin[k], rows[k + 1][3], rows[k + 1][4], PHI[k + 1], (T[k], Pv[k], Nv[k]),
+                            (T[k + 1], Pv[k + 1], Nv[k + 1]), psin[k + 1]))
+            if len(samples) == 5:
+                break
+        if len(samples) < 2:
+            ctx.skip("sequence stage: fewer than two decidable inside points")
+        else:
+            _seq_stage(ctx, eq, q, out_val, samples, eqcls)
